@@ -22,6 +22,36 @@ CLAIMED = {
         'verif::fill_rgb/fill_rgba and exact only on the call pattern len(buf)=bpp*len(y), chroma rows long enough), transcription of yuv.h into Spec/YUV.v.',
    technique='Coq proof over source-regenerated kernels (translator) + row/plane induction + correspondence check + exhaustive 2^24 search on failure',
    ref='DESIGN.md section 6 C13'),
+ 'C05': dict(
+   text='PARTIAL proof. Proved for all inputs: plane-level conversion of a lossy frame = libwebp no-fancy BT.601 of (Y[x,y],U[x/2,y/2],V[x/2,y/2]) for every '
+        'width >= 1 / height / parity, RGB and RGBA writers (kernels regenerated from vp8.rs every run); the in-place alpha loop = container-spec un-filtering for '
+        'all four filters incl. first row/column, colour bytes untouched. Inherited, not proved: planes = RFC 6386 reconstruction (C02), compressed ALPH = VP8L spec (C01).',
+   note='Trusted: Coq kernel, rs2v translator, hand models Model/Yuv.v and Model/Alpha.v (correspondence-checked through hooks fill_rgb/fill_rgba/apply_alpha), '
+        'Spec/YUV.v (transcription of libwebp yuv.h) and Spec/Alpha.v (container spec text).',
+   technique='Coq proof (translated kernels + loop induction) + correspondence check',
+   ref='DESIGN.md section 6 C05'),
+ 'C11': dict(
+   text='PARTIAL proof + direct decision. Proved: the modelled write paths of read_image determine every output byte from the file alone (lossy RGB; lossy RGBA colour bytes; '
+        'every alpha byte by the alpha loop, independent of prior buffer contents), and RGB output = RGBA output with alpha dropped (copy loop). Decided directly on the '
+        'implementation every run: size formula, wrong lengths rejected with the buffer untouched, pre-fill independence, idempotence, five wrappings of each payload agree.',
+   note='Trusted as for C05/C13; the wrong-length / size theorems and the lossless in-place decode independence are proved at model level only when the container / lossless '
+        'models are present (evidence lists the theorems actually checked).',
+   technique='Coq proof over hand model + translated kernels, correspondence check, direct API decision',
+   ref='DESIGN.md section 6 C11'),
+ 'C10': dict(
+   text='PARTIAL proof + direct decision. Proved: std::io contract model with explicit delivery schedules (read_exact result and end position independent of the schedule; '
+        'UnexpectedEof for every schedule on short data; write_all output independent of how the sink splits writes; on a sink fault the result is an error and the sink holds a prefix). '
+        'Decided directly on the implementation every run: 8 schedule classes x corpus, one injected fault at every I/O call index, encoder sinks failing at every call / splitting writes.',
+   note='Trusted: Coq kernel; Lib/IO.v is a model of std default methods (read_exact, write_all), not of the OS; the bit reader refill paths are covered by the lossless model when present.',
+   technique='Coq proof over I/O contract model + fault/schedule enumeration on the implementation',
+   ref='DESIGN.md section 6 C10'),
+ 'C03': dict(
+   text='PARTIAL proof + direct search. Safety theorems (no Panic outcome = no panic / checked overflow / out-of-range index) for the modelled components: blend kernel, YUV kernels and '
+        'plane writers, alpha loop and predictor (more listed in the evidence as models arrive). All other code is covered by the direct search only: structured mutation of valid files '
+        '(prefixes, every header/size/dimension field, chunk surgery, cross-frame dimension disagreements), full API call sequence, checked build, watchdog.',
+   note='Trusted: Coq kernel, translator, hand models (correspondence-checked). The search is exploration, not proof; the evidence lists which functions are under a theorem.',
+   technique='Coq safety proofs for modelled components + structured mutation search on the implementation',
+   ref='DESIGN.md section 6 C03'),
 }
 PENDING = {}
 
